@@ -40,7 +40,11 @@ P == [dirs |-> dirs, files |-> {[name |-> f, py |-> TRUE] : f \in files}, stmts 
 Init == dirs = {R} /\ files = {} /\ stmts = {} /\ steps = 0
 MkDir(d)   == d \notin dirs /\ SubSeq(d, 1, Len(d) - 1) \in dirs /\ dirs' = dirs \cup {d} /\ UNCHANGED <<files, stmts>>
 MkFile(f)  == f \notin files /\ SubSeq(f, 1, Len(f) - 1) \in dirs /\ files' = files \cup {f} /\ UNCHANGED <<dirs, stmts>>
-AddStmt(s) == s \notin stmts /\ s.file \in files /\ stmts' = stmts \cup {s} /\ UNCHANGED <<dirs, files>>
+\* a statement is only written once what it names exists: an import of a name inside the root package that is no
+\* module ("dangling") is outside the documented input language (DESIGN section 5, guard 4)
+NotDangling(s) == LET c == [mpath |-> R, excluded |-> {}, limit |-> 0, ext |-> FALSE, extexcl |-> {}] IN
+                  \A t \in Named(P, c, s).must : t \in InternalMods(P, c) \/ ~Anc(R, t)
+AddStmt(s) == s \notin stmts /\ s.file \in files /\ NotDangling(s) /\ stmts' = stmts \cup {s} /\ UNCHANGED <<dirs, files>>
 Next == /\ steps < MaxSteps /\ steps' = steps + 1
         /\ \/ \E d \in DirU \ {R} : MkDir(d)
            \/ \E f \in FileU : MkFile(f)
